@@ -32,7 +32,10 @@ var docValStrings = []string{"hello", "yes", "no", "true", "null", "~", "0x1f", 
 	"tab\there", "multi\nline", "trailing ", " leading", "é↑", "{{matrix}}", "$HOME", "a,b", "[x]", "{y}", "&a", "*b", "!tag", "%d", "@at",
 	"`bt`", "|", ">", "?", ":", "-", "=", "<", "cr\rlf", "tRUE", "fALSE", "nULL", "yES", "crcrlf\r\r\nend", "crlf\r\nend", "lfcr\n\rend", "tail\r", "x y", "\U0001F600", "0", "-1", "1.0", "on", "OFF", "Null", "3:25:45"}
 var docKeyStrings = []string{"k", "a b", "", "12", "0xc", "+12", "True", "true", "null", "~", "x: y", "#h", "'s'", "é", "0x1f", "1e3", "- d", "[", "*s", "&r", "!t", "|", ">",
-	"%p", "@a", "yes", "multi\nkey", "agents", "retry", "if", "depends_on", "soft_fail", "timeout_in_minutes", "0", "-", "?", "k2", "k3", "zz"}
+	"%p", "@a", "yes", "multi\nkey", "agents", "retry", "if", "depends_on", "soft_fail", "timeout_in_minutes", "0", "-", "?", "k2", "k3", "zz",
+	// the canonical key strings of floats (YAML renderings may write them as plain floats, in any spelling): two that agree
+	// in their first eight digits are still two keys
+	"1.5e+00", "1.00000001e+00", "1.00000002e+00", "-2.5e-07", "1e+300", "1.2345678901234567e+00"}
 var docSources = []string{"docker#v1", "my-org/thing#main", "ecr", "github.com/buildkite-plugins/docker-buildkite-plugin#v2", "./local", "https://example.com/p.git#v1"}
 
 type docStrings struct {
@@ -528,6 +531,14 @@ func runCDoc(args []string) {
 		if fl.str("probes", "") == "C08" { // (the programmatic clause belongs to C08 only)
 			pe := progEvent(orderedJSON{{"a\x7fb", 1}, {"z", "tail"}}, 0)
 			pe["probe"] = "F21-del-key-json-round-trip"
+			emit(pe)
+			// the same decoder-behind-the-decoder, other legal string keys: NEL (a line break to YAML), and a key longer than
+			// YAML's 1024-character limit for implicit keys
+			pe = progEvent(orderedJSON{{"a\u0085b", 1}, {"z", "tail"}}, 0)
+			pe["probe"] = "F21b-nel-key-json-round-trip"
+			emit(pe)
+			pe = progEvent(orderedJSON{{strings.Repeat("k", 1100), 1}, {"z", "tail"}}, 0)
+			pe["probe"] = "F21c-long-key-json-round-trip"
 			emit(pe)
 		}
 		for _, pr := range docProbes {
